@@ -38,6 +38,35 @@ Theorem C09_underscore_names_are_private :
 Proof. exact underscore_names_are_private. Qed.
 Print Assumptions C09_underscore_names_are_private.
 
+(* names are listed in sorted order (byte order of strings), public names first; each own name once *)
+Theorem C09_keys_are_sorted :
+  forall ps, sorted_names (public_keys ps) /\ sorted_names (private_keys ps).
+Proof. intros ps. split; [apply public_keys_sorted|apply private_keys_sorted]. Qed.
+Print Assumptions C09_keys_are_sorted.
+
+Theorem C09_each_name_listed_once :
+  forall ps, NoDup (map fst ps) -> NoDup (public_keys ps).
+Proof. exact public_keys_nodup. Qed.
+Print Assumptions C09_each_name_listed_once.
+
+(* keys, values and items of an object describe the same pairs in the same order; private names
+   appear only with private?: true (any other value of the keyword hides them), after the public ones *)
+Theorem C09_obj_views_consistent :
+  forall W R env st id o kw,
+    as_obj W st (VObj id) = Some id -> get_obj st id = Some o ->
+    let ks := app (public_keys (opairs o)) (if kw_true kw "private?"%string then private_keys (opairs o) else []) in
+    let row f := flat_map (fun k => match assoc k (opairs o) with Some v => [f k v] | None => [] end) ks in
+    call_builtin W R env B_Obj_keys [VObj id] kw st = (Ok (vArr W (row (fun k _ => vStr W k))), st) /\
+    call_builtin W R env B_Obj_values [VObj id] kw st = (Ok (vArr W (row (fun _ v => v))), st) /\
+    call_builtin W R env B_Obj_items [VObj id] kw st = (Ok (vArr W (row (fun k v => vArr W [vStr W k; v]))), st).
+Proof. exact obj_views_consistent. Qed.
+Print Assumptions C09_obj_views_consistent.
+
+Example C09_sorted_example :
+  public_keys [("zz"%string, VBool true); ("a"%string, VBool true); ("_p"%string, VBool true); ("Bq"%string, VBool true)] = ["Bq"; "a"; "zz"]%string /\
+  private_keys [("zz"%string, VBool true); ("a"%string, VBool true); ("_p"%string, VBool true); ("Bq"%string, VBool true)] = ["_p"]%string.
+Proof. split; reflexivity. Qed.
+
 (* maps: a scalar key keeps the first value given for it; new keys go to the end (insertion order) *)
 Theorem C09_map_first_value_wins :
   forall k v l, is_scalar k = true ->
